@@ -146,6 +146,28 @@ class ContractTask(Task):
                 o["backend"] = ",".join(b for b in o["backend"].split(",") if b != "simplifier")
         if oos:
             obs.append(ob(c.target + ".in-subset", "out-of-reach", detail=sorted(set(oos))[:5]))
+        if fd is not None and fd.cls is not None:
+            # every contract describes the fields of ONE object: two instances never share a field's container.  An attrs
+            # field (or class attribute) whose default is a mutable literal is one object shared by all instances.
+            import ast as _ast
+            shared = []
+            cd = fd.cls
+            for nm, (kind, val) in sorted(cd.attr_defaults.items()):
+                lit = isinstance(val, (_ast.List, _ast.Dict, _ast.Set, _ast.ListComp, _ast.DictComp, _ast.SetComp)) or \
+                    (isinstance(val, _ast.Call) and _ast.unparse(val.func) in ("list", "dict", "set", "deque", "collections.deque",
+                                                                                 "defaultdict", "collections.defaultdict", "bytearray"))
+                if kind == "default" and lit:
+                    shared.append(nm)
+            for nm, val in sorted(cd.class_attrs.items()):
+                if isinstance(val, (_ast.List, _ast.Dict, _ast.Set)) and nm not in cd.attr_defaults and not nm.isupper():
+                    uses = [m_ for m_ in cd.methods.values() if f"self.{nm}" in m_.text]
+                    if uses:
+                        shared.append(nm)
+            name = f"{fd.module.relpath}:{cd.name}.fields.no-shared-mutable-default"
+            obs.append(ob(name, "failed" if shared else "discharged", "evaluation", 0.0, False, None,
+                          {"kind": "data", "definite": True,
+                           "src": f"no field of {cd.name} has a mutable object as its class-level default (shared by every instance): "
+                                  f"{shared or 'none'}"}, smt_hash=name, detail={"shared": shared}))
         if fd is not None and "requires" not in covered and not oos:
             obs.append(ob(c.target + ".requires-satisfiable", "vacuous", detail="no path satisfies the precondition"))
         if not obs:
